@@ -358,3 +358,106 @@ Example aux_shipped_nonvacuous :
   /\ b_aux_field (m_build spec_cfg H (Some (CM []))) = Some [xa0]
   /\ b_aux_field (m_build spec_cfg H None) = None.
 Proof. cbv. auto. Qed.
+
+(* ------------------------------------------------------------------------------------------ *)
+(* the byte walker used by the oracle cuts out exactly the encodings of the items             *)
+(* ------------------------------------------------------------------------------------------ *)
+Lemma head_len_pos m n : (1 <= length (head m n))%nat.
+Proof.
+  unfold head. destruct (n <? 24); [cbn; lia|]. destruct (n <? 256); [cbn; lia|].
+  destruct (n <? 65536); [cbn; lia|]. destruct (n <? 4294967296); cbn; lia.
+Qed.
+
+Lemma chunks_len cs : (length cs <= length (concat (map enc_chunk cs)))%nat.
+Proof.
+  induction cs as [|c cs IH]; cbn [map concat length]; [lia|].
+  rewrite app_length. unfold enc_chunk at 1. rewrite app_length. pose proof (head_len_pos 2 (lenN c)). lia.
+Qed.
+
+Definition SZ (x : cbor) : Prop := (sz x + 1 <= 3 * length (enc x))%nat.
+
+Lemma sz_sum xs : Forall SZ xs -> (length xs + list_sum (map sz xs) <= 3 * length (concat (map enc xs)))%nat.
+Proof.
+  induction 1 as [|x xs Hx _ IH]; cbn [map concat length list_sum fold_right]; [lia|].
+  rewrite app_length. unfold SZ in Hx. unfold list_sum in *. unfold bytes in *. lia.
+Qed.
+
+Lemma sz_sum_pairs kvs : Forall (fun kv => SZ (fst kv) /\ SZ (snd kv)) kvs ->
+  (length kvs + list_sum (map (fun kv => (sz (fst kv) + sz (snd kv))%nat) kvs)
+   <= 3 * length (concat (map (fun kv => enc (fst kv) ++ enc (snd kv)) kvs)))%nat.
+Proof.
+  induction 1 as [|kv kvs [Hk Hv] _ IH]; cbn [map concat length list_sum fold_right]; [lia|].
+  rewrite !app_length. unfold SZ in Hk, Hv. unfold list_sum in *. unfold bytes in *. lia.
+Qed.
+
+Lemma sz_bound : forall x, SZ x.
+Proof.
+  induction x as [n|n|b|cs|b|xs IH|xs IH|kvs IH|t y IH|v] using cbor_ind'; unfold SZ; cbn [sz enc].
+  - pose proof (head_len_pos 0 n). lia.
+  - pose proof (head_len_pos 1 n). lia.
+  - rewrite app_length. pose proof (head_len_pos 2 (lenN b)). lia.
+  - cbn [length]. rewrite app_length. cbn [length]. pose proof (chunks_len cs). lia.
+  - rewrite app_length. pose proof (head_len_pos 3 (lenN b)). lia.
+  - rewrite app_length. pose proof (head_len_pos 4 (lenN xs)). pose proof (sz_sum xs IH). lia.
+  - cbn [length]. rewrite app_length. cbn [length]. pose proof (sz_sum xs IH). lia.
+  - rewrite app_length. pose proof (head_len_pos 5 (lenN kvs)). pose proof (sz_sum_pairs kvs IH). lia.
+  - rewrite app_length. pose proof (head_len_pos 6 t). unfold SZ in IH. lia.
+  - cbn. lia.
+Qed.
+
+Lemma firstn_cut {A} (a r : list A) : firstn (length (a ++ r) - length r) (a ++ r) = a.
+Proof.
+  rewrite app_length. replace (length a + length r - length r)%nat with (length a + 0)%nat by lia.
+  rewrite firstn_app_2. cbn. apply app_nil_r.
+Qed.
+
+Lemma items_enc f : forall xs rest, wf_all xs -> (forall x, In x xs -> (sz x <= f)%nat) ->
+  items f (length xs) (concat (map enc xs) ++ rest) = Some (map (fun x => (x, enc x)) xs, rest).
+Proof.
+  induction xs as [|x xs IH]; intros rest W F; [reflexivity|].
+  destruct W as [Wx Wr]. cbn [length map concat items]. rewrite <- app_assoc.
+  rewrite (dec_enc x Wx f (concat (map enc xs) ++ rest) (F x (or_introl eq_refl))).
+  rewrite IH; [|exact Wr|intros y Hy; apply F; now right].
+  now rewrite firstn_cut.
+Qed.
+
+Lemma enc_in_concat x xs : In x xs -> (length (enc x) <= length (concat (map enc xs)))%nat.
+Proof.
+  induction xs as [|y xs IH]; intros Hin; [contradiction|]. cbn [map concat]. rewrite app_length.
+  destruct Hin as [->|Hin]; [lia|]. specialize (IH Hin). lia.
+Qed.
+
+(* for every well-formed array item: the walker returns each element together with exactly its encoding *)
+Lemma array_items_enc xs : wf (CA xs) -> array_items (enc (CA xs)) = Some (map (fun x => (x, enc x)) xs).
+Proof.
+  intros [Wl Wx]. cbn [enc].
+  destruct (head_dec 4 (lenN xs) (concat (map enc xs)) ltac:(lia) Wl) as (h & a & E & Hm & Hai & _ & Hd).
+  rewrite E. cbn [app]. unfold array_items. rewrite Hm. cbn [N.eqb Pos.eqb andb].
+  destruct (b2n h mod 32 =? 31) eqn:Q; [rewrite N.eqb_eq in Q; contradiction|]. cbn [negb].
+  rewrite Hd. rewrite lenN_length, Nnat.Nat2N.id.
+  pose proof (items_enc (walk_fuel (h :: a ++ concat (map enc xs))) xs [] Wx) as Hi.
+  rewrite app_nil_r in Hi. rewrite Hi; [reflexivity|].
+  intros x Hx. pose proof (sz_bound x) as Hs. unfold SZ in Hs. pose proof (enc_in_concat x xs Hx).
+  unfold walk_fuel. cbn [length]. rewrite app_length. lia.
+Qed.
+
+(* in particular for a transaction [body, witness set, validity flag, auxiliary data] *)
+Corollary tx_body_slice body ws valid aux : wf body -> wf ws -> wf valid -> wf aux ->
+  array_items (enc (CA [body; ws; valid; aux]))
+  = Some [(body, enc body); (ws, enc ws); (valid, enc valid); (aux, enc aux)].
+Proof.
+  intros W1 W2 W3 W4. apply (array_items_enc [body; ws; valid; aux]).
+  cbn. repeat split; assumption.
+Qed.
+
+(* the hypotheses of fingerprint_binds are satisfiable; so are those of tx_body_slice *)
+Example fingerprint_binds_nonvacuous :
+  exists (H : nat -> bytes -> bytes) (bech32 : string -> bytes -> string),
+    H_inj H 20 /\ (forall a b, bech32 "asset"%string a = bech32 "asset"%string b -> a = b).
+Proof.
+  exists (fun _ m => m), (fun _ d => string_of_list_byte d). split; [intros a b E; exact E|].
+  intros a b E. rewrite <- (list_byte_of_string_of_list_byte a), <- (list_byte_of_string_of_list_byte b). now rewrite E.
+Qed.
+Example tx_body_slice_nonvacuous :
+  wf (CM [(CU 0, CA []); (CU 2, CU 170000)]) /\ wf (CM []) /\ wf (CS 21) /\ wf (CS 22).
+Proof. cbn. unfold two64. repeat split; lia. Qed.
